@@ -61,6 +61,34 @@ theorem format_parse_args_roundtrip (a : Node) (as : Nodes) (h : WFs (.cons a as
     ∃ f0, ∀ f, f0 ≤ f → parseArgs f (toksArgs (.cons a as) ++ .rp :: rest) = some (.cons a as, .rp :: rest) :=
   (goodArgs h).parse (by simp) (.rp :: rest) rfl
 
+/-- **Assignments.**  `unary_expr (= | +=) logical_expr`: the statement the formatter writes for
+    an assignment (left side bracketed unless it is at least a unary expression, right side never)
+    parses back to the assignment. -/
+theorem format_parse_assignment (op : Op) (hop : op = .assign ∨ op = .addAssign) (l r : Node) (hl : WF l) (hr : WF r)
+    (rest : List Tok) (hs : stops 1 rest = true) :
+    ∃ f0, ∀ f, f0 ≤ f → parseExprStmt f (toksAssign op l r ++ rest) = some (.bin op l r .unk, rest) := by
+  have gl := good hl
+  have gr := good hr
+  have hlp : lhsNeedsParens op l = decide (precedence l < precUnary) := by
+    rcases hop with rfl | rfl <;> simp [lhsNeedsParens]
+  have hrp : rhsNeedsParens op r = false := by
+    have := gr.pos
+    rcases hop with rfl | rfl <;> simp [rhsNeedsParens, precLogical] <;> omega
+  have hR : stops 7 (.op op :: (parens (rhsNeedsParens op r) (toks r) ++ rest)) = true := by
+    rcases hop with rfl | rfl <;> simp [stops, binLevel]
+  obtain ⟨f1, h1⟩ := operand_parse gl (lhsNeedsParens op l) (j := 7) (by omega) (by omega)
+    (by intro h; rw [hlp] at h; have := of_decide_eq_false h; simp only [precUnary] at this; omega) hR
+  obtain ⟨f2, h2⟩ := operand_parse gr (rhsNeedsParens op r) (j := 1) (by omega) (by omega)
+    (by intro _; exact gr.pos) hs
+  refine ⟨max f1 f2, fun f hf => ?_⟩
+  have e : toksAssign op l r ++ rest =
+      parens (lhsNeedsParens op l) (toks l) ++ (.op op :: (parens (rhsNeedsParens op r) (toks r) ++ rest)) := by
+    simp [toksAssign]
+  unfold parseExprStmt
+  rw [e, h1 f (by omega)]
+  rcases hop with rfl | rfl <;> simp [h2 f (by omega)]
+
+
 /-! ### the model's grammar and precedence table are the source's
 
 `Generated.Grammar` is rewritten from parser.y and unparser.go on every run.  The theorems below
